@@ -453,6 +453,10 @@ class C11Executor(_verify.Executor):
                     and not (a.vararg or a.kwarg or a.kwonlyargs or a.posonlyargs) and len(a.args) == len(it.args) and not callee.decorator_list:
                 comp = body[0].value
                 subst = {p.arg: arg.id for p, arg in zip(a.args, it.args)}
+        if comp is None and isinstance(it, _ast.Name):
+            v = st.lookup(it.id)
+            if isinstance(v, VSeq) and isinstance(v.tag, tuple) and v.tag and v.tag[0] == "c11!filtered":
+                comp = v.tag[1]          # the comprehension that built the list, its source re-pointed at the hidden local
         if comp is None:
             comp = self._filter_call_as_genexp(it, st)
         if comp is None or len(comp.generators) != 1:
@@ -961,6 +965,79 @@ class C11Executor(_verify.Executor):
         st.ghost["c11!folds"] = st.ghost["c11!folds"] + (FOLD,)          # keeps the declaration alive
         st.assume(FOLD(zf, n_of(zf)) == S(zf, n_of(zf)))
         return [(st, VInt(FOLD(zf, n_of(zf))))]
+
+    # -- round 6: `[x for x in ENTRIES if C(x)]` bound to a name is the filtered view of the entry sequence: its length is the
+    #    spec count CNT(z, n) of the entries that pass the REAL filter (executed on the symbolic entry; 0 <= CNT(z, i) <= i by an
+    #    induction schema emitted as obligations), a `for` over it runs as the loop-with-continue over the source (_filter_loop),
+    #    anything else done with it (indexing, mutation) is not read.  The filter may only call functions under a verified contract.
+    def e_ListComp(self, n, st):
+        try:
+            r = self._filtered_view(n, st)
+        except ops.Unsupported:
+            raise
+        except Exception:  # noqa -- not a shape read here: the engine decides
+            r = None
+        if r is not None:
+            return r
+        return super().e_ListComp(n, st)
+
+    def _filtered_view(self, n, st):
+        import ast as _ast
+        import copy
+        if len(n.generators) != 1:
+            return None
+        g = n.generators[0]
+        if g.is_async or not g.ifs or not isinstance(g.target, _ast.Name) or not isinstance(n.elt, _ast.Name) or n.elt.id != g.target.id \
+                or not isinstance(g.iter, _ast.Name):
+            return None
+        seq = st.lookup(g.iter.id)
+        if not (isinstance(seq, VSeq) and seq.ekind == "ZipInfo" and seq.tag is None and z3.is_app(seq.length) and seq.length.decl().name() == "zip_n"):
+            return None
+        for c in g.ifs:
+            for x in _ast.walk(c):
+                if isinstance(x, _ast.Call) and not (isinstance(x.func, _ast.Name) and self.reg.get(f"{self.module.rel}::{x.func.id}") is not None):
+                    return None
+        zf = seq.length.arg(0)
+        k = z3.Int(fresh_name("k!cnt"))
+        probe = st.fork()
+        base = len(probe.pc)
+        probe.assume(z3.And(k >= 0, k < n_of(zf)))
+        probe.frames.append(type(probe.frames[-1])({g.target.id: VExt("ZipInfo", info_at(zf, k))}, len(probe.frames) - 1, None))
+        self.sinks.append([])
+        try:
+            live = [(probe, z3.BoolVal(True))]
+            for c in g.ifs:
+                nxt = []
+                for (s1, cond) in live:
+                    for (s2, v) in self.ev(c, s1):
+                        nxt.append((s2, z3.And(cond, self.truth(s2, v).t)))
+                live = nxt
+        finally:
+            raised = self.sinks.pop()
+        if raised or not live:
+            self.unsupported(n, "filter over the entry sequence may raise / has no value")
+        keep_k = z3.BoolVal(False)
+        for (s2, cond) in live:
+            keep_k = z3.Or(keep_k, z3.And(s2.pc[base + 1:] + [cond]))
+        keep_k = z3.simplify(keep_k)
+        CNT = z3.RecFunction(fresh_name("CNT"), ZipFile, I, I)
+        zv, iv = z3.Const("z!cnt", ZipFile), z3.Int("i!cnt")
+        z3.RecAddDefinition(CNT, [zv, iv], z3.If(iv <= 0, 0, CNT(zv, iv - 1) + z3.If(z3.substitute(keep_k, (k, iv - 1), (zf, zv)), 1, 0)))
+        b = z3.Int(fresh_name("b!cnt"))
+        self.add_vc("lemma", "filtered-entry-count-within-record-count.base", [], CNT(zf, 0) == 0, loc=self.loc(n))
+        self.add_vc("lemma", "filtered-entry-count-within-record-count.step", [b >= 0, CNT(zf, b) >= 0, CNT(zf, b) <= b],
+                    z3.And(CNT(zf, b + 1) >= 0, CNT(zf, b + 1) <= b + 1), loc=self.loc(n))
+        nz = n_of(zf)
+        st.assume(z3.And(CNT(zf, nz) >= 0, CNT(zf, nz) <= nz))
+        hidden = f"__c11_src_{n.lineno}_{n.col_offset}"
+        st.bind(hidden, seq)
+        comp = copy.deepcopy(n)
+        comp.generators[0].iter = _ast.copy_location(_ast.Name(id=hidden, ctx=_ast.Load()), g.iter)
+
+        def elem(_i):
+            raise ops.Unsupported(f"{self.loc(n)} element access on a filtered entry list")
+        st.ghost["c11!folds"] = st.ghost.get("c11!folds", ()) + (CNT,)
+        return [(st, VSeq(CNT(zf, nz), elem, "ZipInfo", tag=("c11!filtered", comp)))]
 
     def e_Call(self, n, st):
         try:
